@@ -38,6 +38,8 @@ func vCfgErrStr(err error) string {
 		return "big"
 	case strings.Contains(err.Error(), "invalid element size"):
 		return "inv"
+	case strings.Contains(err.Error(), "sending queue is stopped"):
+		return "stopped"
 	}
 	return "other:" + vHex(err.Error())
 }
